@@ -128,13 +128,17 @@ type outcome struct {
 // entry performs one api.Entry and decodes the observables of a rejection.
 var curRun *run
 
+// reqOpts: options the api.Entry calls of the running request carry besides the batch count (resource type): they
+// must not influence the flow decision
+var reqOpts []api.EntryOption
+
 func entry(name string, b uint32) (o outcome) {
 	defer func() {
 		if e := recover(); e != nil {
 			o = outcome{ok: false, bt: "panic", panic: true}
 		}
 	}()
-	e, berr := api.Entry(name, api.WithBatchCount(b))
+	e, berr := api.Entry(name, append([]api.EntryOption{api.WithBatchCount(b)}, reqOpts...)...)
 	if berr == nil {
 		return outcome{ok: true, entry: e}
 	}
@@ -261,7 +265,12 @@ func main() {
 			tr.Emit(hx.M{"op": "reload", "t": r.rel(), "rules": out})
 		case "req":
 			res, b := hx.Int(s, "res"), hx.Int(s, "b")
+			reqOpts = nil
+			if _, ok := s["rt"]; ok {
+				reqOpts = append(reqOpts, api.WithResourceType(base.ResourceType(hx.Int(s, "rt"))))
+			}
 			o := entry(r.name(res), uint32(b))
+			reqOpts = nil
 			if o.entry != nil {
 				o.entry.Exit()
 				if b > 0 {
